@@ -16,6 +16,15 @@
 //     rag.ChunkDocument -> ChunkCollection.ToMarkdownWithOptions, on authored documents with
 //     recurring heading texts, both heading spellings, lists, tables, page breaks, all options.
 //
+//  6. call histories (history.go): one Reader opened once and asked for several renderings (Markdown,
+//     MarkdownWithOptions, MarkdownWithRAGOptions under different heading configurations, Text and
+//     Document calls in between) — on every generated document and, with all 70 configurations, on the
+//     sweep files; one rag.ChunkCollection rendered several times. Every rendering is checked under
+//     the options of that call.
+//
+// Worksheet tables lie anywhere on their sheet (Place, docwriters.go): under blank rows, right of
+// blank columns, the blank rows absent, empty or made of value-less cells.
+//
 // Tables carry a header marking (Head, docwriters.go): 0..all leading header rows in every
 // spelling a format has (HTML thead/th/td/tfoot and row-header cells, DOCX w:tblHeader, ODT
 // table-header-rows / table-rows, PPTX firstRow), in the direct stream (model, docx, htmldoc input
@@ -549,7 +558,7 @@ func direct(c *hx.Ctx) {
 }
 
 func Run(c *hx.Ctx) {
-	c.Rep.Rule = "direct: random tables (1..14 rows x 1..12 cols; cells from an alphabet with '|', newline, spaces, empty, unicode, markdown punctuation; no backslash) through all six ToMarkdown writers, docx/odt also with random ColSpan/vertical-merge cells; levels: the full box level -1..10 x offset -3..8 x max 0..7; documents: random block sequences (headings of every level the format expresses — DOCX 1..9 as built-in style / direct outlineLvl / custom style / derived style, ODT 1..10, HTML 1..6, PPTX titles —, paragraphs, nested lists depth<=3, tables with merges) written by independent DOCX/ODT/PPTX/HTML/XLSX writers under all Markdown options (metadata x TOC x offset -2..+7 x max 1..6, enumerated); heading sweep: per format files with a heading of every expressible level, each read under all 70 configurations (offset -2..+7 x max 0..6) through Reader.MarkdownWithRAGOptions, tabula.Open.ToMarkdownWithOptions and once through Reader.Markdown, Reader.MarkdownWithOptions, tabula.Open.ToMarkdown; head tables: the same random tables through model/docx/htmldoc ToMarkdown with 0..all leading rows marked as header rows (IsHeader / HasHeader as a thead, th-only rows, td-in-thead or a row-header column produce them), and in the documents as HTML thead/tbody/tfoot/bare tr with th or td, DOCX w:tblHeader, ODT table-header-rows(+table-rows), PPTX firstRow; heading texts drawn from a pool of 2-3 recurring titles in half of the documents; rag documents: model.Document (headings 1..6 as model.Heading or as heading-like paragraph listed in Layout.Headings, recurring titles adjacent and apart, paragraphs, lists depth<=3, tables with header marks, page breaks) through rag.ChunkDocument(doc).ToMarkdownWithOptions under offset -2..+7 x max 1..6 x metadata x TOC x chunk separators x page numbers x chunk ids x document title; non-trivial = table containing '|' or newline, document with a table/heading/list; distinct by canonical input"
+	c.Rep.Rule = "direct: random tables (1..14 rows x 1..12 cols; cells from an alphabet with '|', newline, spaces, empty, unicode, markdown punctuation; no backslash) through all six ToMarkdown writers, docx/odt also with random ColSpan/vertical-merge cells; levels: the full box level -1..10 x offset -3..8 x max 0..7; documents: random block sequences (headings of every level the format expresses — DOCX 1..9 as built-in style / direct outlineLvl / custom style / derived style, ODT 1..10, HTML 1..6, PPTX titles —, paragraphs, nested lists depth<=3, tables with merges) written by independent DOCX/ODT/PPTX/HTML/XLSX writers under all Markdown options (metadata x TOC x offset -2..+7 x max 1..6, enumerated); heading sweep: per format files with a heading of every expressible level, each read under all 70 configurations (offset -2..+7 x max 0..6) through Reader.MarkdownWithRAGOptions, tabula.Open.ToMarkdownWithOptions and once through Reader.Markdown, Reader.MarkdownWithOptions, tabula.Open.ToMarkdown; head tables: the same random tables through model/docx/htmldoc ToMarkdown with 0..all leading rows marked as header rows (IsHeader / HasHeader as a thead, th-only rows, td-in-thead or a row-header column produce them), and in the documents as HTML thead/tbody/tfoot/bare tr with th or td, DOCX w:tblHeader, ODT table-header-rows(+table-rows), PPTX firstRow; heading texts drawn from a pool of 2-3 recurring titles in half of the documents; rag documents: model.Document (headings 1..6 as model.Heading or as heading-like paragraph listed in Layout.Headings, recurring titles adjacent and apart, paragraphs, lists depth<=3, tables with header marks, page breaks) through rag.ChunkDocument(doc).ToMarkdownWithOptions under offset -2..+7 x max 1..6 x metadata x TOC x chunk separators x page numbers x chunk ids x document title; call histories: every generated document also through ONE Reader asked 4..7 times (Markdown / MarkdownWithOptions / MarkdownWithRAGOptions with offset -2..+7 x max 0..6 x metadata x TOC at random, repeats of an earlier configuration, Text() and Document() in between), the sweep files through one Reader under all 70 configurations in random order, every second rag document through one ChunkCollection rendered 3..5 times, each rendering checked under its own options; xlsx placement: three of five worksheet tables start below 1..9 blank rows and/or right of 1..6 blank columns (blank rows absent, empty <row> elements, or rows of value-less cells; optionally blank row/cells after the table); non-trivial = table containing '|' or newline, document with a table/heading/list; distinct by canonical input"
 	direct(c)
 	levels(c)
 	documents(c)
